@@ -7,6 +7,7 @@ package main
 
 import (
 	"fmt"
+	"go/ast"
 	"go/token"
 	"sort"
 	"strings"
@@ -307,4 +308,108 @@ func callNeverReturns(cc *ssa.CallCommon) bool {
 		}
 	}
 	return true
+}
+
+// checkMustPass: in fn's CFG, every path from a block satisfying src to a block satisfying target goes
+// through a block satisfying must. Decided as SMT reachability on the graph with the must-blocks
+// removed (sat = a concrete bypassing path). Block predicates are given over instructions.
+func checkMustPass(prog *ssa.Program, fnName string, src, must, target func(ssa.Instruction) bool, ev map[string]interface{}, key string) (ok bool, inconclusive string, witness string) {
+	fn := findFuncByString(prog, fnName)
+	if fn == nil || fn.Blocks == nil {
+		return false, "function " + fnName + " not found", ""
+	}
+	has := func(b *ssa.BasicBlock, p func(ssa.Instruction) bool) int {
+		for i, ins := range b.Instrs {
+			if p(ins) {
+				return i
+			}
+		}
+		return -1
+	}
+	var srcs, targets, musts []int
+	for _, b := range fn.Blocks {
+		si, mi, ti := has(b, src), has(b, must), has(b, target)
+		if mi >= 0 {
+			musts = append(musts, b.Index)
+		}
+		if si >= 0 {
+			srcs = append(srcs, b.Index)
+		}
+		// a target in the same block after the must instruction is fine; before it is a bypass
+		if ti >= 0 && !(mi >= 0 && mi < ti) {
+			targets = append(targets, b.Index)
+		}
+	}
+	if len(srcs) == 0 || len(musts) == 0 {
+		return false, fmt.Sprintf("anchors not found in %s (sources %d, required steps %d)", fnName, len(srcs), len(musts)), ""
+	}
+	targetCount := 0
+	for _, b := range fn.Blocks {
+		if has(b, target) >= 0 {
+			targetCount++
+		}
+	}
+	if targetCount == 0 {
+		return false, "no routing call found in " + fnName, ""
+	}
+	isMust := map[int]bool{}
+	for _, m := range musts {
+		isMust[m] = true
+	}
+	var sb strings.Builder
+	sb.WriteString("(set-logic ALL)\n")
+	for _, b := range fn.Blocks {
+		fmt.Fprintf(&sb, "(declare-const r%d Bool)\n(declare-const l%d Int)\n", b.Index, b.Index)
+	}
+	isSrc := map[int]bool{}
+	for _, s := range srcs {
+		isSrc[s] = true
+	}
+	for _, b := range fn.Blocks {
+		if isMust[b.Index] && !isSrc[b.Index] {
+			fmt.Fprintf(&sb, "(assert (not r%d))\n", b.Index)
+			continue
+		}
+		var alts []string
+		if isSrc[b.Index] {
+			alts = append(alts, fmt.Sprintf("(= l%d 0)", b.Index))
+		}
+		for _, p := range b.Preds {
+			if isMust[p.Index] && !isSrc[p.Index] {
+				continue
+			}
+			alts = append(alts, fmt.Sprintf("(and r%d (< l%d l%d))", p.Index, p.Index, b.Index))
+		}
+		fmt.Fprintf(&sb, "(assert (=> r%d (or %s false)))\n(assert (>= l%d 0))\n", b.Index, strings.Join(alts, " "), b.Index)
+	}
+	var ts []string
+	for _, t := range targets {
+		ts = append(ts, fmt.Sprintf("r%d", t))
+	}
+	fmt.Fprintf(&sb, "(assert (or %s false))\n(check-sat)\n", strings.Join(ts, " "))
+	res := runOneShot("z3-new", sb.String(), 30000)
+	ev[key] = map[string]interface{}{"blocks": len(fn.Blocks), "sources": len(srcs), "required_blocks": len(musts), "routing_blocks": targetCount, "bypass_candidates": len(targets), "result": res}
+	switch res {
+	case "unsat":
+		return true, "", ""
+	case "sat":
+		return false, "", fmt.Sprintf("%s: a path from the decode of the envelope reaches a routing call without the required step (blocks %v)", fnName, targets)
+	}
+	return false, "solver " + res + " on must-pass query of " + fnName, ""
+}
+
+
+// debugName returns the source identifier a value is bound to (via DebugRef), if any.
+func debugName(v ssa.Value) string {
+	if v.Referrers() == nil {
+		return ""
+	}
+	for _, r := range *v.Referrers() {
+		if d, ok := r.(*ssa.DebugRef); ok {
+			if id, ok := d.Expr.(*ast.Ident); ok {
+				return id.Name
+			}
+		}
+	}
+	return ""
 }
